@@ -1,4 +1,5 @@
 import Swat4.Drv.UCRun
+import Swat4.Model.CleanerComponent
 /-!
 Driver side of C14: `C14 seq|race <init> <clients> <events> => eff=… calls=… res=… dump=…`
 
@@ -103,25 +104,27 @@ def svWrites (dump : String) : List (String × Int) :=
 
 /-- `cleaner <retention> <interval> <init> <script>`: the real cleaner component ran the passes of the script, the fake clock
 advancing by the interval before each (`faulttick`: the server cleaner's scan failed, that pass removes no server).
-Model: after the init items, per step: advance, `cleanServers2 retention` (unless faulted) and `cleanInstances retention`.
-Oracle on the implementation's final dump: after a healthy last pass no server last written before its cutoff remains; after
-any last pass no instance last written at or before its cutoff remains. -/
+Model: after the init items, `CleanerComponent.cleanerPasses retention interval script` (`Model/CleanerComponent.lean`: per
+pass advance, `cleanServers2 retention` unless faulted, `cleanInstances retention`) — the driver builds no pass of its own.
+Oracle on the implementation's final dump, with the Model's staleness predicates at the model's final clock: after a healthy
+last pass no server that is `CleanerComponent.staleServer` remains; after any last pass no instance that is
+`CleanerComponent.staleInstance` remains.  That the MODEL's final state satisfies the same is
+`Swat4.C14.cleaner_last_pass_complete`. -/
 def handleCleaner (retS ivS initS script : String) (out : List String) : Verdict :=
   match retS.toInt?, ivS.toInt?, kv out "dump" with
   | some ret, some iv, some idump =>
     let idump := if idump = "-" then "" else idump
-    let steps := script.splitOn "+"
-    let items := (if initS = "-" then [] else initS.splitOn ",") ++ steps.flatMap fun st =>
-      [s!"adv{iv}"] ++ (if st == "tick" then [s!"clean|{ret}"] else []) ++ [s!"cleanins|{ret}"]
-    match runInit {} { clock := epoch } items with
+    let passes := CleanerComponent.parseScript script
+    match runInit {} { clock := epoch } (if initS = "-" then [] else initS.splitOn ",") with
     | none => .bad "C14 cleaner init"
-    | some s =>
+    | some s0 =>
+      let s := CleanerComponent.cleanerPasses ret iv passes s0
       let mdump := ";".intercalate (dumpState s.abs)
-      let stale := (svWrites idump).filter fun x => decide (x.2 < s.clock - ret)
-      let healthyLast := steps.getLast? == some "tick"
+      let stale := (svWrites idump).filter fun x => CleanerComponent.staleServer s.clock ret x.2
+      let healthyLast := passes.getLast? == some true
       -- the instance cleaner runs in every pass (a failed server scan does not stop it): no instance last written at or before
       -- the last pass's cutoff remains, and an instance entry never lacks its write time or vice versa
-      let staleIns := (inWrites idump).filter fun x => decide (x.2 ≤ s.clock - ret)
+      let staleIns := (inWrites idump).filter fun x => CleanerComponent.staleInstance s.clock ret x.2
       let insPaired := sortNat ((inAddrs idump).map fun x => (x.1, ())) == sortNat ((inWrites idump).map fun x => (x.1, ()))
       let ok := (!healthyLast || stale.isEmpty) && staleIns.isEmpty && insPaired
       verdict (mdump == idump) ok
